@@ -146,6 +146,21 @@ impl TreeCache {
             salt: rng.random(),
             ..Default::default()
         }
+        .with_salt_override()
+    }
+
+    #[cfg(feature = "verif-hooks")]
+    fn with_salt_override(mut self) -> Self {
+        if let Some(salt) = crate::verif_hooks::salt_override() {
+            self.salt = salt.to_le_bytes();
+        }
+        self
+    }
+
+    #[cfg(not(feature = "verif-hooks"))]
+    #[inline(always)]
+    fn with_salt_override(self) -> Self {
+        self
     }
 
     pub fn undo_state(&self) -> TreeCacheCheckpoint {
